@@ -269,19 +269,28 @@ def c18_slice(cols, roles, depth, hist):
     return items
 
 
+def final_request(hist):
+    """what the history asks of the result's order: the last step if it is an order_rows"""
+    import json
+
+    if hist["steps"] and hist["steps"][-1]["op"] == "order_rows":
+        return json.dumps(hist["steps"][-1], sort_keys=True)
+    return ""
+
+
 def run(tier):
     run = core.Run(PROP, tier)
     if tier == "quick":
         cfg = {"kd": 3, "kd2": 2, "ke": 1, "d_rows": inputs.D_ROWS_Q, "e_rows": inputs.E_ROWS_Q, "backends": ["polars_eager", "sqlite"], "index_all": False}
-        ex1 = explorer.Explorer(menus.core_menu)
+        ex1 = explorer.Explorer(menus.core_menu, key_extra=final_request)
         s1 = ex1.run(1)
-        ex2 = explorer.Explorer(c18_slice)
+        ex2 = explorer.Explorer(c18_slice, key_extra=final_request)
         s2 = ex2.run(2)
     else:
         cfg = {"kd": 3, "kd2": 2, "ke": 2, "d_rows": inputs.D_ROWS_Q + [("b", 1, 2.0)], "e_rows": inputs.E_ROWS_Q, "backends": ["polars_eager", "polars_lazy", "sqlite"], "index_all": True}
-        ex1 = explorer.Explorer(menus.core_menu)
+        ex1 = explorer.Explorer(menus.core_menu, key_extra=final_request)
         s1 = ex1.run(2)
-        ex2 = explorer.Explorer(c18_slice)
+        ex2 = explorer.Explorer(c18_slice, key_extra=final_request)
         s2 = ex2.run(2)
     seen = {}
     for s in s1 + s2:
@@ -294,6 +303,7 @@ def run(tier):
     run.assumptions += [
         "inputs whose answer is undetermined (ties or nulls in a window order key, a limit cutting a group of distinguishable tied rows, under nulls-first or nulls-last placement) are excluded by the reference model and counted, as the property's precondition states",
         "null placement in order_rows is not prescribed by the property and is not judged here",
+        "states are merged on the built pipeline *and* the final order_rows request of the history, so two histories the builder maps to one pipeline are both judged against what they asked for",
         "a backend that raises on one ordering must raise on all (raise vs raise is not compared further)",
     ]
     return run.finish(
